@@ -37,7 +37,7 @@ def has_unmodelled(ctx):
     ['LVA', argspec] = the legacy verbatim parser for a \\verb-like macro WITH leading standard arguments"""
     if ctx == 'default':
         return False
-    bad = lambda a: a is not None and a[0] == 'LVA'
+    bad = lambda a: a is not None and a[0] in ('LVA', 'SH')
     if ctx.get('provide'):
         return True
     return any(bad(a) for _, a in ctx['macros']) or any(bad(a) for _, a, _ in ctx['envs']) or any(bad(a) for _, a in ctx['specials'])
@@ -77,8 +77,21 @@ def make_argspec_list(specs):
         out.append(LatexArgumentSpec(p, parsing_state_delta=d))
     return out
 
+def _reject_empty_argument(node):
+    """a user hook (finalize_node=) that rejects a call whose first argument is empty by raising a parse error WITHOUT
+    position information (pos=None is the constructor default of LatexWalkerParseError)"""
+    from pylatexenc.latexnodes import LatexWalkerParseError
+    nd = getattr(node, 'nodeargd', None)
+    a = nd.argnlist[0] if (nd is not None and nd.argnlist) else None
+    if a is not None and not getattr(a, 'nodelist', [1]):
+        raise LatexWalkerParseError('empty argument rejected by a user hook')
+    return node
+
 def make_spec(cls, name, argsp, **kw):
     from pylatexenc import macrospec
+    if argsp[0] == 'SH':
+        # standard arguments + the user hook above
+        return cls(name, arguments_spec_list=make_argspec_list(argsp[1]), finalize_node=_reject_empty_argument, **kw)
     if argsp[0] == 'S':
         return cls(name, arguments_spec_list=make_argspec_list(argsp[1]), **kw)
     if argsp[0] == 'LV':
